@@ -19,7 +19,7 @@ from hsim.core.runner import RunResult
 
 PROPERTY = "C04"
 CHUNK = {"quick": 400, "thorough": 1000}
-PROBES = ["eviction", "back_with_later_injection", "ooo_below_injection", "retransmit_after_injection",
+PROBES = ["far_end_acks_an_injected_packet", "eviction", "back_with_later_injection", "ooo_below_injection", "retransmit_after_injection",
           "skip_ahead", "inject_burst", "first_copy_is_a_resend", "resent_flag_on_retransmission"]
 COMPONENTS = {
     "real": ["hippolyzer.lib.proxy.circuit.ProxiedCircuit.send/prepare_message",
@@ -54,6 +54,7 @@ def gen_plan(rng: random.Random, tier: str) -> dict:
     p_dup = rng.choice([0.0, 0.1, 0.3])
     p_delay = rng.choice([0.0, 0.3, 0.7])
     p_lost_original = rng.choice([0.0, 0.1, 0.3])
+    p_revack = rng.choice([0.0, 0.0, 0.1, 0.25])
     steps = []
     t = 0.0
     cur = 0
@@ -63,6 +64,12 @@ def gen_plan(rng: random.Random, tier: str) -> dict:
             burst = 1 if rng.random() < 0.7 else rng.randint(2, 4)
             for _ in range(burst):
                 steps.append({"at": t, "op": "inject", "reliable": rng.random() < 0.3})
+            continue
+        if rng.random() < p_revack:
+            # the far end acknowledges some of what it has seen on this direction's wire (injected packets included);
+            # the acknowledgement travels the other way through the same circuit
+            steps.append({"at": t, "op": "revack", "picks": [rng.randrange(12) for _ in range(rng.randint(1, 3))],
+                          "form": rng.choice(["appended", "packetack"])})
             continue
         resent = False
         if cur and rng.random() < p_old:
@@ -228,6 +235,7 @@ def run_plan(plan: dict) -> RunResult:
             if owner is not None and owner != ("ep", o) and w > state["evicted_max"]:
                 return violate("C04/wire/collision", o=o, wire=w, owner=list(owner))
             wire_owner.setdefault(w, ("ep", o))
+            wire_order.append(w)
             first_eff.setdefault(o, w)
             check_laws(["ep", o])
 
@@ -263,6 +271,7 @@ def run_plan(plan: dict) -> RunResult:
             if w in wire_owner:
                 return violate("C04/inject/collision", wire=w, owner=list(wire_owner[w]))
             wire_owner[w] = ("inj",)
+            wire_order.append(w)
             J.append(w)
             if len(J) > maxlen:
                 state["evicted_max"] = J[-maxlen - 1]
@@ -271,10 +280,49 @@ def run_plan(plan: dict) -> RunResult:
             state["max_wire"] = w
             check_laws(["inject", w])
 
+        def do_revack(step):
+            if stop or not wire_order:
+                return
+            from hsim.stubs import lludp as L
+            ids = sorted({wire_order[-1 - (k % len(wire_order))] for k in step["picks"]})
+            ids = [w for w in ids if w > state["evicted_max"]]      # older ones are outside the contract
+            if not ids:
+                return
+            rev = Direction.IN if direction == Direction.OUT else Direction.OUT
+            if step["form"] == "packetack":
+                msg = Message("PacketAck", *[Block("Packets", ID=w) for w in ids], packet_id=9000 + len(wire.sent),
+                              direction=rev)
+            else:
+                msg = Message("CompletePingCheck", Block("PingID", PingID=1), packet_id=9000 + len(wire.sent),
+                              direction=rev)
+                msg.acks = tuple(ids)
+            want = sorted(wire_owner[w][1] for w in ids if wire_owner.get(w, ("inj",))[0] == "ep")
+            if any(wire_owner.get(w, ("inj",))[0] == "inj" for w in ids):
+                res.probe("far_end_acks_an_injected_packet")
+            n0 = len(wire.sent)
+            try:
+                circuit.send(msg)
+            except Exception as e:
+                return violate("C04/back/ack-translation-raised", ids=ids, exc=repr(e))
+            env.ab("A", step["form"], len(ids))
+            emitted = wire.sent[n0:]
+            got = []
+            for pkt in emitted:
+                p_ = L.parse_datagram(bytes(pkt.data))
+                got.extend(p_.acks)
+                got.extend(L.packet_ack_ids(p_.body_plain, p_.extra_len) or [])
+            del wire.sent[n0:]          # (keeps this direction's wire list to itself)
+            if sorted(got) != want:
+                return violate("C04/back/ack-translation", acked_wire=ids, got=sorted(got), want=want, form=step["form"])
+            check_laws(["revack", ids])
+
+        wire_order = []      # every wire ID of this direction in emission order (forwarded and injected)
         last_inject_at = None
         for step in plan["steps"]:
             if step["op"] == "ep":
                 loop.call_at(step["at"], do_ep, step)
+            elif step["op"] == "revack":
+                loop.call_at(step["at"], do_revack, step)
             else:
                 loop.call_at(step["at"], do_inject, step)
                 if last_inject_at == step["at"]:
